@@ -123,6 +123,35 @@ typedef struct { uint8_t mode, fam; int32_t start, count; } cjob_t;
 static const uint8_t PROBE_ADDR[4] = {9, 0, 0, 0};
 static void drain(void) { uint8_t *m; while ((m = bidib_read_message())) free(m); while ((m = bidib_read_error_message())) free(m); }
 
+/* the tour: one well-formed message of every state-updating uplink type from every configured node, closed by a PONG.  Run when a
+ * library thread still holds a lock while the receiver is idle (a lock the adversarial input made the receiver keep stops the next
+ * message that needs it, not the PONG probe), and once at the end of every batch */
+static int tour(const char *what, const uint8_t *pm, int pml) {
+	static const struct { uint8_t type; uint8_t dl; uint8_t d[10]; } T[] = {
+		{MSG_CS_STATE, 1, {0x03}}, {MSG_CS_DRIVE_ACK, 3, {0x23, 0x01, 1}}, {MSG_CS_ACCESSORY_ACK, 3, {0x22, 0x11, 1}},
+		{MSG_CS_DRIVE_MANUAL, 9, {0x23, 0x01, 3, 3, 10, 0x10, 0, 0, 0}}, {MSG_CS_DRIVE_MANUAL, 9, {0x77, 0x07, 3, 3, 10, 0, 0, 0, 0}},
+		{MSG_CS_ACCESSORY_MANUAL, 3, {0x22, 0x11, 1}}, {MSG_LC_STAT, 3, {0, 0, 1}}, {MSG_LC_WAIT, 4, {0, 0, 1, 2}},
+		{MSG_BM_OCC, 1, {0}}, {MSG_BM_FREE, 1, {0}}, {MSG_BM_MULTIPLE, 3, {0, 8, 0x01}}, {MSG_BM_CONFIDENCE, 3, {0, 0, 0}},
+		{MSG_BM_ADDRESS, 3, {0, 0x23, 0x01}}, {MSG_BM_ADDRESS, 1, {0}}, {MSG_BM_CURRENT, 2, {0, 0x20}}, {MSG_BM_SPEED, 4, {0x23, 0x01, 10, 0}},
+		{MSG_BM_DYN_STATE, 5, {0, 0x23, 0x01, 1, 50}}, {MSG_BM_DYN_STATE, 5, {0, 0x23, 0x01, 2, 20}}, {MSG_BM_POSITION, 6, {0x23, 0x01, 0, 1, 0, 0}},
+		{MSG_BOOST_DIAGNOSTIC, 6, {0, 10, 1, 100, 2, 30}}, {MSG_BOOST_STAT, 1, {0x80}}, {MSG_ACCESSORY_STATE, 5, {0, 0, 2, 0, 0}},
+		{MSG_CS_DRIVE_EVENT, 3, {0x23, 0x01, 1}}, {MSG_NODE_NEW, 9, {9, 0x6e, 0x01, 0x02, 0x03, 0x04, 0x05, 0x06, 0x07}},
+	};
+	static const uint8_t NODE[3][4] = {{0, 0, 0, 0}, {1, 0, 0, 0}, {2, 0, 0, 0}};
+	static uint8_t s[4000]; size_t sl = 0; s[sl++] = RC_MAGIC;
+	for (int nd = 0; nd < 3; nd++) for (unsigned k = 0; k < sizeof T / sizeof T[0]; k++) {
+		if (T[k].type == MSG_NODE_NEW && nd) continue;
+		uint8_t m[40]; int ml = rc_build_msg(m, NODE[nd], 0, T[k].type, T[k].d, T[k].dl); sl += rc_frame(s + sl, m, (size_t) ml, 1);
+	}
+	{ uint8_t pf[40]; size_t l = rc_frame(pf, pm, (size_t) pml, 1); memcpy(s + sl, pf, l); sl += l; }
+	drain();
+	env_push_quiet(s, sl); vs_point(); hx_quiesce();
+	hx_emit_san_events(what);
+	uint8_t *m, *got = NULL; while ((m = bidib_read_message())) { if (m[0] + 1 == pml && !memcmp(m, pm, (size_t) pml)) { free(got); got = m; } else free(m); }
+	int ok = got != NULL; free(got); drain();
+	return ok;
+}
+
 static void c12_child(const void *job, size_t n) {
 	vs_dev_t devs[VS_MAXDEV]; int nd; size_t pl; const uint8_t *p = job_parse(job, n, devs, &nd, &pl);
 	cjob_t j; memcpy(&j, p, sizeof j); g_thorough = p[sizeof j];
@@ -134,7 +163,7 @@ static void c12_child(const void *job, size_t n) {
 	{ uint8_t fe = RC_MAGIC; hx_feed(&fe, 1); }
 	uint8_t pm[16], pf[40], d = 0x77; int pml = rc_build_msg(pm, PROBE_ADDR, 0, MSG_SYS_PONG, &d, 1); pf[0] = RC_MAGIC; int pfl = 1 + (int) rc_frame(pf + 1, pm, (size_t) pml, 1);
 	long cases = 0; hx_hash_t h; hx_hash_init(&h);
-	static uint8_t s[1400]; char human[200];
+	static uint8_t s[1400]; char human[200]; static char thr[1200];
 	for (long c = j.start; c < (long) j.start + j.count && c < fam_count(j.fam); c++) {
 		res_progress(c);
 		int sl = gen_stream(j.fam, c, s, human, sizeof human);
@@ -153,11 +182,20 @@ static void c12_child(const void *job, size_t n) {
 			corrupt = 1;
 		}
 		free(got); drain();
+		if (j.mode == 2 && !corrupt) {
+			char held[200] = ""; for (int t = 1; t < VS_MAXT && !held[0]; t++) if (vs_held_count(t)) vs_held_desc(t, held, sizeof held);
+			if (held[0] && !tour(what, pm, pml)) {
+				char cls[400]; snprintf(cls, sizeof cls, "receiver-stuck: the receiver kept %s and blocks at a later well-formed message that needs it", held);
+				res_violation(cls, "%s; threads: %s", what, (vs_describe_threads(thr, sizeof thr), thr)); corrupt = 1;
+			}
+		}
 		cases++;
 		/* an out-of-bounds WRITE may have corrupted memory: the parent resumes behind this case in a fresh child.
 		 * out-of-bounds reads are recorded (once per class and child) and the batch continues */
 		if (corrupt) { res_printf("I %ld\n", c); break; }
 	}
+	if (j.mode == 2 && !res_nviol() && !tour("end of batch", pm, pml))
+		res_violation("receiver-stuck: the tour of well-formed state messages at the end of the batch was not processed", "batch %s cases %d..%d; threads: %s", FNAME[j.fam], j.start, j.start + j.count - 1, (vs_describe_threads(thr, sizeof thr), thr));
 	hx_emit_ledger_violations("C12");
 	hx_hash_add(&h, &cases, sizeof cases);
 	res_printf("O %llx %llx\nC adversarial_inputs %ld\n", (unsigned long long) (h.a ^ (uint64_t) j.start), (unsigned long long) (h.b + j.fam), cases);
